@@ -22,7 +22,7 @@ Continuation lines: a line that does not start with a clause keyword continues t
 """
 import re
 
-KEYWORDS = ('define', 'ghost', 'assume', 'func', 'mode', 'requires', 'ensures', 'let', 'calls', 'modifies', 'loop',
+KEYWORDS = ('purefn', 'define', 'ghost', 'assume', 'func', 'mode', 'requires', 'ensures', 'let', 'calls', 'modifies', 'loop',
             'effect', 'serves', 'lp', 'at', 'lemma', 'trusted', 'iterates', 'spawns', 'note', 'inline', 'twin',
             'pure', 'opaque', 'check', 'havoc', 'frame', 'reenters', 'oncall')
 
@@ -347,6 +347,9 @@ def parse_file(lines, fname, pkg, sf=None):
         elif kind == 'assume':
             m = re.match(r'^([A-Za-z_][A-Za-z0-9_.\-]*)\s*:\s*(.*)$', text)
             sf.assumes.append((m.group(1), m.group(2)))
+        elif kind == 'purefn':
+            sf.purefns = getattr(sf, 'purefns', set())
+            sf.purefns.add(text.strip())
         elif kind == 'lemma':
             c = Clause('lemma', text, ln, fname)
             t = text
@@ -374,6 +377,14 @@ def parse_file(lines, fname, pkg, sf=None):
             c = Clause(kind, text, ln, fname)
             t = text
             if kind in ('requires', 'ensures', 'check'):
+                if t.startswith('assumed '):
+                    # clause that callers may use but that is NOT proved for the function (listed as an assumption)
+                    c.extra['assumed'] = True
+                    t = t[len('assumed '):]
+                if t.startswith('private '):
+                    # representation-level clause: only meaningful inside the package that owns the data structure
+                    c.extra['private'] = True
+                    t = t[len('private '):]
                 m = TAGS.match(t)
                 if m:
                     c.tags = [x.strip() for x in m.group(1).split(',') if x.strip()]
